@@ -114,7 +114,7 @@ impl SnmpV3ClientSocket {
     }
     /// Verification hook: (request id, msg id, engine id, boots, time, user,
     /// has_auth, auth key, cipher code, next salt, private buffer length)
-    #[cfg(gufo_snmp_verif)]
+    #[cfg(all(gufo_snmp_verif, not(gufo_snmp_verif_nostate)))]
     #[allow(clippy::type_complexity)]
     fn verif_state(
         &self,
@@ -147,7 +147,7 @@ impl SnmpV3ClientSocket {
         ))
     }
     /// Verification hook: position the privacy salt counter
-    #[cfg(gufo_snmp_verif)]
+    #[cfg(all(gufo_snmp_verif, not(gufo_snmp_verif_nostate)))]
     fn verif_set_salt(&mut self, value: u64) -> PyResult<()> {
         self.priv_key.verif_set_salt(value);
         Ok(())
